@@ -166,7 +166,7 @@ PROPS = {
     "C09": dict(
         module="Anonymongo.Props.C09",
         theorems=["Anonymongo.C09_roundtrip", "Anonymongo.C09_tamper", "Anonymongo.C10_inj",
-                  "Anonymongo.C09_roundtrip_aes", "Anonymongo.C09_tamper_aes", "Anonymongo.C09_short_refused", "Anonymongo.C09_leaf_length", "Anonymongo.aesEncFn_eq",
+                  "Anonymongo.C09_roundtrip_aes", "Anonymongo.C09_tamper_aes", "Anonymongo.C09_short_refused", "Anonymongo.C09_leaf_length", "Anonymongo.C09_leaf_verbatim", "Anonymongo.aesEncFn_eq",
                   "Anonymongo.Siv.dec_enc", "Anonymongo.Siv.dec_only", "Anonymongo.Siv.decWith_encWith", "Anonymongo.Siv.decWith_only", "Anonymongo.Siv.ctr_ctr",
                   "Anonymongo.Base64.dec_enc"],
         extra_modules=["Anonymongo.Props.C09c"],
